@@ -443,7 +443,8 @@ Inductive lim_outcome :=
 | OAnswered        (* query handled: forwarded (or served from cache), reply written *)
 | ORefused         (* DNS reply with RCODE 5, nothing else done *)
 | O503             (* HTTP status 503, nothing else done *)
-| OStreamClosed.   (* QUIC: stream closed without a reply *)
+| OStreamClosed    (* QUIC: stream closed without a reply *)
+| OBadRequest.     (* HTTP status 400: the client address header does not parse; nothing else done *)
 
 Definition forwards (x : lim_outcome) : bool := match x with OAnswered => true | _ => false end.
 
@@ -477,12 +478,16 @@ Definition accept_query (r : rl) (now : Z) (l : lim_listener) (a : lim_addr) (hi
   then (fst (rl_allow (fst x) now a (if hit then costFromCache else costFromUpstream)), OAnswered)
   else (fst x, refusal l).
 
-Inductive aev := AConn (l : lim_listener) (a : lim_addr) | AQuery (l : lim_listener) (a : lim_addr) (hit : bool).
+(* ABadAddr: an HTTP request whose client_addr_header value does not parse as an address (ServeHTTP answers 400 and
+   returns before the limiter, the handler and the upstream are involved) *)
+Inductive aev := AConn (l : lim_listener) (a : lim_addr) | AQuery (l : lim_listener) (a : lim_addr) (hit : bool)
+               | ABadAddr (l : lim_listener).
 
 Definition listener_step (r : rl) (now : Z) (e : aev) : rl * lim_outcome :=
   match e with
   | AConn l a => accept_conn r now l a
   | AQuery l a hit => accept_query r now l a hit
+  | ABadAddr _ => (r, OBadRequest)
   end.
 
 (* a script of lim_listener events, all at time [now] (the e2e scenario is shorter than one refill) *)
